@@ -15,6 +15,7 @@ import MD.Model.Heap
 import MD.Model.PavaArr
 import MD.Model.GpavaArr
 import MD.Model.Names
+import MD.Model.IsoStore
 /-! JSON-lines driver: one request per line on stdin, one response per line on stdout. -/
 open Lean MD
 
@@ -226,6 +227,15 @@ def handle (j : Json) : Except String Json := do
     let w ← getRats j "w"
     let (x, r) := MD.Arr.pavaArr (List.zip y w)
     pure (Json.mkObj [("x", ratsToJson x), ("r", natsToJson r)])
+  | "iso_own" =>
+    -- ownership model of isotonic_regression -> pava (mean): the caller's y / weights as objects 0 / 1 of a store
+    let y ← getRats j "y"
+    let w ← getRats j "w"
+    let inc ← getBool j "inc"
+    let s0 : MD.Own.Store Rat := [.vec y, .vec w]
+    let (s1, x, r) := MD.Own.isoMeanStore true s0 0 1 inc
+    pure (Json.mkObj [("x", ratsToJson x), ("r", natsToJson r),
+      ("y_after", ratsToJson (MD.Own.getVec s1 0)), ("w_after", ratsToJson (MD.Own.getVec s1 1))])
   | "gpava_arr" =>
     -- the in-place array program of gpava (MD/Model/GpavaArr.lean) with the functional named by "f"
     let f ← getStr j "f"
